@@ -39,6 +39,13 @@ func (e *executor[R]) Apply(innerFn func(failsafe.Execution[R]) *common.PolicyRe
 
 			result = e.PostExecute(execInternal, result)
 			if result.Done {
+				if !result.Success {
+					// A cancellation that arrived while the failure was being handled, ex: during an event listener, is reported
+					// rather than the failure
+					if canceled, cancelResult := execInternal.IsCanceledWithResult(); canceled {
+						return cancelResult
+					}
+				}
 				return result
 			}
 
